@@ -94,7 +94,7 @@ Qed.
 Lemma inv_upd_spec id f s :
   inv s -> length (filter (links id) (all_jobs s)) = 0%nat ->
   (forall u, u_id (f u) = u_id u /\ u_base (f u) = u_base u) ->
-  (forall u, In u (x_unords s) -> u_id u = id -> unord_ok (f u) /\ (u_complete (f u) = false -> u_end (f u) = u_end u)) ->
+  (forall u, In u (x_unords s) -> u_id u = id -> unord_ok (f u)) ->
   inv (set_unords (upd_unord id f (x_unords s)) s) /\
   masters (set_unords (upd_unord id f (x_unords s)) s) = masters s.
 Proof.
@@ -166,6 +166,79 @@ Proof.
   apply existsb_exists. exists u. split; auto. rewrite C, L. replace (u_id u =? id) with true by lia. reflexivity.
 Qed.
 
+Lemma filter_len_zero {A} (p : A -> bool) l : length (filter p l) = 0%nat <-> Forall (fun x => p x = false) l.
+Proof.
+  induction l as [|a r IH]; simpl; [split; auto|]. destruct (p a) eqn:E; simpl.
+  - split; [discriminate|]. intro H; inversion H; congruence.
+  - rewrite IH. split; [constructor; auto|intro H; inversion H; auto].
+Qed.
+
+Lemma jm_upd_same id f us j :
+  (forall u, u_id (f u) = u_id u /\ u_complete (f u) = u_complete u /\ u_legit (f u) = u_legit u) ->
+  jm (upd_unord id f us) j = jm us j.
+Proof.
+  intro HF. unfold jm. destruct (r_link j) as [id2|]; auto. unfold upd_unord. rewrite existsb_map.
+  apply existsb_ext'. intros u _. destruct (u_id u =? id); auto. destruct (HF u) as (-> & -> & ->). reflexivity.
+Qed.
+
+Lemma inv_set_token s : inv s -> masters s = 0%nat -> nparse s = 0%nat -> inv (set_parse_token true s).
+Proof.
+  intros [Ic Ip Ir Is Iu If Ij Il Ie Im Id Ib Iq] M0 N0. unfold masters, all_jobs, nparse in *.
+  constructor; unfold all_jobs, nparse; nrm; auto.
+  - eapply Forall_impl; [|exact Ij]. intros. eapply job_ok_ext; [| |eassumption]; nrm; auto.
+  - simpl. lia.
+Qed.
+
+Lemma retr1_master cfg j rv cur s2 st' :
+  c_requeue_retr_checks_head cfg = true -> jfacts j s2 -> jm (x_unords s2) j = true -> x_parsing_done s2 = false ->
+  dbs_ok cur = true -> d_bit (r_cur j) <= d_bit cur -> d_off (r_cur j) <= d_off cur ->
+  (rv = MORE -> dbs_norm cur = true) ->
+  (let st := advance cfg cur s2 in
+   if rv =? MORE then
+     if c_requeue_retr_checks_head cfg && (d_off cur <? x_head_offs st)
+     then Some (give_unit (if c_stale_drops_link cfg then set_unords (drop_link (r_link j) (x_unords st)) st else st))
+     else Some (set_retr_q (mkrjob (r_base j) cur (r_link j) :: x_retr_q st) st)
+   else Some (add_run (CRetr2 (mkejob (r_base j) rv (d_off cur)))
+                (match r_link j with
+                 | Some id => set_unords (del_unord id (x_unords (set_parse_token true st))) (set_parse_token true st)
+                 | None => set_parse_token true st
+                 end))) = Some st' ->
+  inv st'.
+Proof.
+  intros CR (I2 & J2 & L2 & B2 & M2) JM PD Hok Hbit Hoff Hn H. rewrite JM in B2. simpl in B2.
+  assert (M0 : masters s2 = 0%nat) by lia. assert (N0 : nparse s2 = 0%nat) by lia.
+  assert (T0 : x_parse_token s2 = false) by (destruct (x_parse_token s2); simpl in B2; auto; lia).
+  specialize (M2 JM).
+  destruct (inv_advance cfg cur s2 I2 M0 ltac:(lia)) as (I3 & M3 & H3a & H3b & ST & RP).
+  cbv zeta in H. set (st := advance cfg cur s2) in *.
+  assert (NU : x_next_uid st = x_next_uid s2) by (subst st; nrm; auto).
+  assert (RU : x_running st = x_running s2) by (subst st; nrm; auto).
+  assert (TK : x_parse_token st = false) by (subst st; nrm; auto).
+  assert (NP : nparse st = 0%nat) by (unfold nparse in *; rewrite RU; auto).
+  destruct (rv =? MORE) eqn:RV.
+  - rewrite CR in H. replace (d_off cur <? x_head_offs st) with false in H by lia. cbn [andb] in H.
+    inversion H; subst st'. clear H. apply N.eqb_eq in RV. specialize (Hn RV).
+    apply inv_requeue; auto.
+    + destruct J2 as (J1 & J2' & J3 & J4 & J5). unfold job_ok; simpl. rewrite NU.
+      split; [lia|]. split; [auto|]. split; [auto|]. split; [auto|].
+      intros id u E Hu Hid. destruct (ST u Hu) as (u0 & H0 & (S1 & S2 & S3 & S4 & S5 & S6)).
+      destruct (J5 id u0 E H0 ltac:(congruence)) as [B1 _]. split; [congruence|].
+      intro C. exfalso.
+      (* the job is master-like: the only unord block with this identity is complete *)
+      unfold jm in JM. rewrite E in JM. apply existsb_exists in JM. destruct JM as (u1 & H1 & E1). bool_hyps.
+      assert (u1 = u0) by (apply (nodup_id_unique (x_unords s2)); auto; [apply I2|lia]). subst u1.
+      match goal with K : u_complete u0 = true |- _ => specialize (S6 K) end. congruence.
+    + simpl. intros id E. specialize (L2 id E). apply filter_len_zero in L2. apply filter_len_zero.
+      unfold all_jobs in *. rewrite RU. apply Forall_app in L2. destruct L2 as [A B]. apply Forall_app. split; auto.
+    + rewrite TK, NP, M3. simpl. destruct (jm (x_unords st) _); simpl; lia.
+  - inversion H; subst st'. clear H.
+    eapply inv_view; [apply view_add_run; auto|].
+    pose proof (inv_set_token st I3 M3 NP) as I4.
+    destruct (r_link j) as [id|]; auto.
+    apply inv_stems; auto.
+    + unfold del_unord. intros u Hu. apply filter_In in Hu. exists u. split; [tauto|apply stems_refl].
+    + unfold del_unord. apply nodup_map_filter. apply I4.
+Qed.
 Lemma inv_retr1 cfg j att rv cur st st' : cfg_safe cfg -> inv st -> retr1 cfg j att rv cur st = Some st' -> inv st'.
 Proof.
   intros (CS & CJ & CR) I H. unfold retr1 in H.
